@@ -128,6 +128,9 @@ impl Clone for F64 { #[verifier::external_body] fn clone(&self) -> (r: Self) ens
 impl Copy for F64 {}
 #[verifier::external_body]
 pub fn __vp_flit(num: u64, den: u64) -> (r: F64) requires den > 0 ensures r@ == (num as real) / (den as real) { unimplemented!() }
+/// `n as f64` for a usize n (rule X1): exact under the floats-as-reals idealisation (true for n < 2^53)
+#[verifier::external_body]
+pub fn __vp_usize_as_f64(n: usize) -> (r: F64) ensures r@ == n as real { unimplemented!() }
 impl F64 {
   /// num_traits::FromPrimitive for f64: `n as f64`, always Some
   #[verifier::external_body]
